@@ -55,6 +55,9 @@ pub struct Step {
     /// seed of the golden ticket search (lottery outcome)
     #[serde(default)]
     pub gt_seed: Option<u64>,
+    /// build the block but do not hand it to the node (a chain the node joins in the middle)
+    #[serde(default)]
+    pub hold: bool,
     /// free-form tag copied to the trace (scenario class, expected verdict of the generator ...)
     #[serde(default)]
     pub tag: Option<Value>,
@@ -79,6 +82,12 @@ pub struct Scenario {
     pub steps: Vec<Step>,
     #[serde(default)]
     pub tag: Option<Value>,
+    /// the node never receives the genesis block (it joins the chain at the first block delivered)
+    #[serde(default)]
+    pub skip_genesis: bool,
+    /// a block-level edit of the genesis block, offered to the fresh node before the honest one
+    #[serde(default)]
+    pub genesis_edit: Option<String>,
 }
 fn dg() -> u64 {
     100
@@ -551,6 +560,12 @@ pub fn apply_block_level_edit(block: &mut Block, e: &str, creator: &Key, _w: &Le
             block.merkle_root = [0; 32];
             block.transactions.pop();
         }
+        "drop_all_txs" => {
+            block.transactions.clear();
+        }
+        "flip_block_sig" => {
+            block.signature[11] ^= 0x04;
+        }
         "resign_other_key" => {
             let other = crate::node::key(99);
             block.sign(&other.private);
@@ -590,14 +605,35 @@ pub fn run_scenario(
     let mut r = Runner::new(rt, scn, scn_no);
     trace.emit(json!({"ev": "Reset", "scn": scn_no, "g": scn.g, "hb": scn.hb,
         "issued": amt_json(r.world.issued), "node_key": scn.node_key, "tag": scn.tag}));
-    // the node starts from the genesis block
-    let (res, rres) = r.deliver("b1", wd);
-    let ev = r.block_event("b1", &res, "builder", json!({"replica": rres, "tag": null, "bedit": null, "redelivery": false}));
-    trace.emit(ev);
+    if let Some(e) = &scn.genesis_edit {
+        // an edited copy of the genesis block is what the fresh node sees first
+        let creator = r.world.keys["c"];
+        let mut g = r.world.genesis.clone();
+        let before = g.serialize_for_net(saito_core::core::consensus::block::BlockType::Full);
+        apply_block_level_edit(&mut g, e, &creator, &r.world, T0);
+        if before != g.serialize_for_net(saito_core::core::consensus::block::BlockType::Full) {
+            r.by_hash.entry(g.hash).or_insert_with(|| "b1x".into());
+            r.blocks.insert("b1x".into(), BuiltBlock { block: g, label: "b1x".into(), parent: "".into(), height: 1, descs: HashMap::new() });
+            let (res, rres) = r.deliver("b1x", wd);
+            let ev = r.block_event("b1x", &res, "builder", json!({"replica": rres, "tag": "genesis-edit", "bedit": e, "redelivery": false}));
+            trace.emit(ev);
+        }
+    }
+    if !scn.skip_genesis {
+        // the node starts from the genesis block
+        let (res, rres) = r.deliver("b1", wd);
+        let ev = r.block_event("b1", &res, "builder", json!({"replica": rres, "tag": null, "bedit": null, "redelivery": false}));
+        trace.emit(ev);
+    }
     for (i, st) in scn.steps.iter().enumerate() {
         r.step_no = i + 1;
         match st.op.as_str() {
-            "block" => match r.build_block(st) {
+            // a panic while assembling a scenario block (the builder is asked to extend something it cannot) is
+            // not the node's: the step is skipped
+            "block" => match guarded(|| r.build_block(st)).unwrap_or_else(|p| Err(format!("builder panicked: {}", p))) {
+                Ok(label) if st.hold => {
+                    trace.emit(json!({"ev": "Held", "scn": scn_no, "i": r.step_no, "label": label}));
+                }
                 Ok(label) => {
                     let (res, rres) = r.deliver(&label, wd);
                     let bedit = if r.last_edit_effective { st.bedit.clone() } else { None };
